@@ -39,8 +39,10 @@ Theorem C01_spatial_id_form_is_same_voxel : forall tanf cosf logf l z sids,
 Proof. exact points_sid_api_ok. Qed.
 Print Assumptions C01_spatial_id_form_is_same_voxel.
 
-(* valid input never gives an error: zooms in 0..35, every point in the documented domain and a Mercator float m in [0,2)
-   (pt_ok p := pt_domain p /\ m finite /\ 0 <= m < 2; true of every stored point with Go's libm: validated on each generated case) *)
+(* valid input never gives an error ON THE MODEL: zooms in 0..35, every point in the documented domain and a Mercator float m in [0,2).
+   pt_ok p := pt_domain p /\ m finite /\ 0 <= m < 2.  The last two conjuncts are a hypothesis about Go's libm (math.Tan/Cos/Log), which no
+   theorem discharges (pt_domain itself has no latitude bound: the latitude enters only through m). At run time only its consequences are
+   checked: no error is returned, and 0 <= y < 2^h at the case's own zoom — for every point, classed or not. *)
 Theorem C01_valid_input_succeeds : forall tanf cosf logf l h v, 0 <= h <= 35 -> 0 <= v <= 35 -> Forall (pt_ok tanf cosf logf) l ->
   exists ids, points_api tanf cosf logf false l h v = Ok ids /\ List.length ids = List.length l.
 Proof. exact points_api_total. Qed.
@@ -80,6 +82,13 @@ Theorem C01_alt_underflow_refuted :
                 f_f alt v = Some 0 /\ F_exact v (fval alt) = -1.
 Proof. exact f_f_underflow_refuted. Qed.
 Print Assumptions C01_alt_underflow_refuted.
+
+(* the closed top edge of the documented domain: alt = 2^25 exactly is the first layer above the grid, f = 2^v, which is NOT a valid
+   vertical index (valid: -2^v <= f < 2^v); C01_f_in_range / C01_voxel_is_valid therefore need alt < 2^25.  The run-time checker accepts
+   f = 2^v for alt = 2^25 only. *)
+Theorem C01_top_edge_altitude : forall v, 0 <= v <= 35 -> f_f 33554432%float v = Some (2 ^ v) /\ F_exact v (bpow radix2 25) = 2 ^ v.
+Proof. exact f_f_top_edge. Qed.
+Print Assumptions C01_top_edge_altitude.
 
 (* the class is decided on the input by the boolean that the dispatch entry evaluates *)
 Theorem C01_alt_underflow_class_decided : forall alt v, 0 <= v <= 35 -> ffin alt = true ->
@@ -134,6 +143,11 @@ Theorem C01_x_within_one_column : forall lon h x, 0 <= h <= 35 -> ffin lon = tru
 Proof. exact x_f_within_one. Qed.
 Print Assumptions C01_x_within_one_column.
 
+(* the class is decided on the input (exact integer arithmetic on the float's dyadic value) by the boolean that the dispatch entry evaluates *)
+Theorem C01_x_rounding_class_decided : forall lon h, 0 <= h -> ffin lon = true -> x_rounding_b lon h = true <-> x_rounding (fval lon) h.
+Proof. exact x_rounding_b_spec. Qed.
+Print Assumptions C01_x_rounding_class_decided.
+
 (* on the class the statement is false of the faithful model (D13): lon = float64(-1e-20), h = 3 gives column 4, the point is in column 3 *)
 Theorem C01_x_rounding_refuted :
   exists lon h, 0 <= h <= 35 /\ ffin lon = true /\ (-180 <= fval lon <= 180)%R /\ x_rounding (fval lon) h /\
@@ -157,6 +171,25 @@ Theorem C01_y_is_floor_of_scaled_m : forall tanf cosf logf lat h, 0 <= h <= 35 -
 Proof. exact y_f_inrange. Qed.
 Print Assumptions C01_y_is_floor_of_scaled_m.
 
+(* from the code's rows to the real-number rows.  NOT proved: that Go's m/2 is close to the real Mercator fraction w(lat) (that is a
+   statement about math.Tan/Cos/Log).  Proved: (i) if the zoom-35 row of the model is the real-number row — which the meta step latcert
+   certifies per sampled latitude with CoqInterval — then the row at EVERY zoom is the real-number row and in range;
+   (ii) if |m/2 - w(lat)| <= 2^-45 then at every zoom the row is in range, at most one row off, and exact unless the real position is
+   within 2^(h-45) rows of a row boundary (y_rounding: the tolerance band used by latcert). *)
+Theorem C01_y_all_zooms_from_certified_zoom35_partial : forall tanf cosf logf lat (latR : R),
+  ffin (merc_m tanf cosf logf lat) = true -> (Rabs (fval (merc_m tanf cosf logf lat)) <= 4)%R -> (Rabs latR <= lat_limit)%R ->
+  y_f tanf cosf logf lat 35 = Some (Y_exact 35 latR) ->
+  forall h, 0 <= h <= 35 -> y_f tanf cosf logf lat h = Some (Y_exact h latR) /\ 0 <= Y_exact h latR < 2 ^ h.
+Proof. exact y_f_all_zooms_from_35. Qed.
+Print Assumptions C01_y_all_zooms_from_certified_zoom35_partial.
+Theorem C01_y_close_to_real_row_partial : forall tanf cosf logf lat (latR : R) h, 0 <= h <= 35 ->
+  ffin (merc_m tanf cosf logf lat) = true -> (Rabs latR <= lat_limit)%R ->
+  (Rabs (fval (merc_m tanf cosf logf lat) / 2 - wfrac latR) <= bpow radix2 (-45))%R ->
+  exists y, y_f tanf cosf logf lat h = Some y /\ 0 <= y < 2 ^ h /\ Y_exact h latR - 1 <= y <= Y_exact h latR + 1 /\
+            (~ y_rounding latR h -> y = Y_exact h latR).
+Proof. exact y_f_close. Qed.
+Print Assumptions C01_y_close_to_real_row_partial.
+
 (* real-number side: the Mercator fraction (1 - asinh(tan lat)/pi)/2, written as the code writes it, lies strictly inside (0,1)
    on |lat| <= 85.0511287798 (lat_limit = 85.05112877980001 covers the decimal and its binary64), hence 0 <= Y < 2^h *)
 Theorem C01_mercator_fraction_strictly_inside : forall lat, (Rabs lat <= lat_limit)%R ->
@@ -170,8 +203,10 @@ Theorem C01_asinh_form_is_log_form : forall phi, (- (PI / 2) < phi < PI / 2)%R -
 Proof. exact asinh_tan. Qed.
 Print Assumptions C01_asinh_form_is_log_form.
 
-(* the box of (X, Y, F) is the unique voxel of zooms (h, v) containing the point, it is a valid ID on the documented domain,
-   and the voxels of one point at different zooms are nested *)
+(* real numbers only (nothing about the code here): the box of (X, Y, F) is the unique voxel of zooms (h, v) containing the point — by
+   definition of Voxel.inR this is the statement that a half-open box is determined by the three floors —, it is a valid ID on the
+   documented domain with alt < 2^25, and the voxels of one point at different zooms are nested.  The code is tied to X and F by
+   C01_point_voxel_partial and to Y only through the latitude theorems above plus the per-sample certificates. *)
 Theorem C01_voxel_is_the_unique_container : forall h v lon lat alt i, eh i = h -> ev i = v ->
   (inR i (norm_pt lon lat alt) <-> i = voxel_of h v lon lat alt).
 Proof. exact voxel_of_unique. Qed.
@@ -198,6 +233,8 @@ Proof. exact point_eid_partial. Qed.
 Print Assumptions C01_point_voxel_partial.
 
 (* ================= the run-time checker decides the specification ================= *)
+(* point_id_spec is what the run-time `prop` can decide exactly: requested zooms, x and f equal to the exact floors, and for y ONLY
+   0 <= y < 2^h (the exact row needs real arithmetic: step latcert).  It is deliberately weaker than the property's y clause. *)
 Theorem C01_checker_sound : forall ps h v o, 0 <= h ->
   Forall (fun p => ffin (plon p) = true /\ ffin (palt p) = true) ps ->
   check_point_ids ps h v o = true <-> Forall2 (fun p s => point_id_spec p h v s) ps o.
